@@ -236,11 +236,11 @@ def eval_body(atoms, tid_of, db, small_only=True, new_since=None, head=None, inc
 def profile_db(atoms, profile, seed, tid_of):
     """the seeded (big-range) rows, as a database with timestamp 0"""
     sig = gen.signature(atoms)
-    pname, default, over = profile
+    pname, default, over, dist = gen.profile_parts(profile)
     db = {}
     for name, ar in sorted(sig.items()):
         rows = {}
-        for key, val in gen.profile_rows(name, ar, None, over.get(name, default), seed, atoms.types):
+        for key, val in gen.profile_rows(name, ar, None, over.get(name, default), seed, atoms.types, dist):
             insert_row(db, tid_of, name, tuple(key), val, 0)
         db.setdefault(tid_of[name], {})
     return db
